@@ -1,5 +1,6 @@
 (* Props/C02.v — property theorems only. *)
 From YQ Require Import Base.Str Model.Node Model.Store Model.Eval Spec.Lens Proofs.LensProofs Proofs.AssignProofs.
+From Coq Require Import ZArith.
 
 (* The update laws, for every simple path (keys and non-negative indices, of
    any length, existing or to be created), every value and every document. *)
@@ -61,6 +62,19 @@ Theorem C02_update_no_result_keys_partial : forall ks r doc f n1 pos st2,
   eval (S f) (EUpdate (pk ks) r) false [] [(O, [])] (init_store doc) = Ok ([(O, [])], st2).
 Proof. exact update_no_result. Qed.
 Print Assumptions C02_update_no_result_keys_partial.
+
+(* index steps, one step at a time: `[i]` applied in a writable context to a sequence, or to a null (re-typed to an
+   empty sequence first), pads it with nulls exactly as the lens step [SIdx i] does (pad_to) and answers position i.
+   Chaining index steps through the evaluator (each literal index allocates scratch roots) is tied by the
+   correspondence only: partial. *)
+Theorem C02_index_step_is_lens_step_partial : forall p st n items t i,
+  deref st p = Some n ->
+  (n = Seq items \/ (exists tv, n = Scalar TNull tv) /\ items = []) ->
+  Z_of_index t = Ok (Z.of_nat i) -> (Z.of_nat i <= 100000)%Z ->
+  exists st', trav_indices false [Scalar TInt t] p st = Ok ([(fst p, snd p ++ [i])], st')
+              /\ deref st' p = Some (Seq (pad_to items (S i - length items))).
+Proof. exact index_step_is_lens_step. Qed.
+Print Assumptions C02_index_step_is_lens_step_partial.
 
 (* non-vacuity: a path that creates a map under null and a padded sequence *)
 Example C02_example :
